@@ -101,7 +101,19 @@ func main() {
 		r.Rule("four real gRPC/TLS signing servers on 127.0.0.2..5 share one port; for every endpoint list of length 0..4 (in natural and permuted order, empty given as nil and as []string{}) and every success/failure vector over it, each failing position takes one failure kind from {RPC status code (quick: Unavailable, Internal, DeadlineExceeded, Canceled; thorough: all 16 codes), empty key text, unparsable key text, server hangs until the per-try deadline, nobody listening}; successful positions return 1..4 certificates with comment shapes {none, word, two words, non-ASCII} and stray comment lines. Oracle from the servers' logs: the endpoints that received the request form a prefix of the configured order ending at the first success; the request each received is proto.Equal to the one passed; the result is that server's certificates in order with one comment per certificate; no success -> error (never nil certificates with a nil error). Retries (Retries 2..3, own servers, real backoff delays): a transient status (Unavailable, ResourceExhausted) is retried on the same endpoint, a non-retryable one is not; every attempt carries the unmodified request; later endpoints stay untouched when an earlier one finally answers; the observed delay between attempts stays below the configured maximum (with slack for load). Backoff: (*backoff.Config).Backoff sampled over attempts {0..70, 600..700, 2^16, 2^31, 2^32-1} x base {0, 1ns, 1ms, 2s, max} x multiplier {1, 1.0001, 1.6, 3, 1e6} x max {base..24h} x jitter {0, 0.2, 1}, 20 samples each: 0 <= d <= max*(1+jitter)+1ns. distinct_nontrivial = distinct (endpoint list, behaviour vector) signing calls judged + distinct backoff configurations x attempts within bounds")
 		r.Assume("Retries: 1 (one attempt per endpoint) in the enumeration so that failures are instant; the sign-retries family uses 2..3", "loopback servers stand in for crypki")
 		gen.Pool()
-		signing(r)
+		func() {
+			defer func() {
+				if p := recover(); p != nil {
+					if _, ok := p.(stopRun); !ok {
+						panic(p)
+					}
+				}
+			}()
+			signing(r)
+		}()
+		if signHangs.Load() > 0 {
+			return // the verdict is decided, and the evidence says what was observed until then
+		}
 		backoffs(r)
 		r.Floor(int64(r.Pick(400, 5000)), int64(r.Pick(300, 1500)))
 	})
@@ -201,6 +213,9 @@ func signing(r *ev.Run) {
 				})
 			case k == "unparsable-key":
 				s.Set(func(context.Context, *proto.SSHCertificateSigningRequest) (*proto.SSHKey, error) {
+					if idx%2 == 1 {
+						return &proto.SSHKey{Key: "ssh-ed25519-cert-v01@openssh.com AAAAnot-base64!!! x"}, nil // cut off: no line end
+					}
 					return &proto.SSHKey{Key: "ssh-ed25519-cert-v01@openssh.com AAAAnot-base64!!! x\nrubbish\n"}, nil
 				})
 			case k == "hang":
@@ -257,7 +272,7 @@ func signing(r *ev.Run) {
 			req.Priority = proto.Priority(c.Rand.Intn(4))
 		}
 		sent := gproto.Clone(req).(*proto.SSHCertificateSigningRequest)
-		if r.Guard(c, "Signer", rec, func() {
+		if guardSign(r, c, "Signer", rec, 60*time.Second, true, func() {
 			var signer *crypki.Signer
 			if idx%3 == 0 {
 				// through the configuration map, as the gensign binary does
@@ -618,7 +633,7 @@ func signing(r *ev.Run) {
 			r.Eval(1)
 			var certs []ssh.PublicKey
 			var serr, cerr error
-			if r.Guard(c, "Signer with an undiallable endpoint", rec, func() {
+			if guardSign(r, c, "Signer with an undiallable endpoint", rec, 60*time.Second, true, func() {
 				var signer *crypki.Signer
 				signer, cerr = crypki.NewSigner(crypki.SignerConfig{TLSClientKeyFile: clientKey, TLSClientCertFile: clientCert, TLSCACertFiles: []string{caPath}, CrypkiEndpoints: list, CrypkiPort: uint(port), Retries: 1, PerTryTimeout: 3 * time.Second})
 				if cerr != nil {
@@ -854,13 +869,17 @@ func retries(r *ev.Run, ca *caserver.CA, caPath, clientCert, clientKey string) {
 		failFirst []int      // per endpoint: how many leading calls fail
 		code      codes.Code // with this status
 		wantFrom  int        // index of the endpoint whose certificates are returned (-1: error)
+		slow      time.Duration // the first endpoint thinks this long before it answers (inside the per-try time-out)
 	}
 	cases := []rcase{
-		{"transient-then-ok", 2, []int{1, 0}, codes.Unavailable, 0},
-		{"exhausted-then-next", 2, []int{99, 0}, codes.Unavailable, 1},
-		{"resource-exhausted-then-ok", 3, []int{1, 0}, codes.ResourceExhausted, 0},
-		{"non-retryable-then-next", 3, []int{99, 0}, codes.Internal, 1},
-		{"all-exhausted", 2, []int{99, 99}, codes.Unavailable, -1},
+		{"transient-then-ok", 2, []int{1, 0}, codes.Unavailable, 0, 0},
+		{"exhausted-then-next", 2, []int{99, 0}, codes.Unavailable, 1, 0},
+		{"resource-exhausted-then-ok", 3, []int{1, 0}, codes.ResourceExhausted, 0, 0},
+		{"non-retryable-then-next", 3, []int{99, 0}, codes.Internal, 1, 0},
+		{"all-exhausted", 2, []int{99, 99}, codes.Unavailable, -1, 0},
+		// an endpoint that is slow but inside the per-try time-out has answered: nothing else is contacted
+		{"slow-then-answers", 1, []int{0, 0}, codes.Unavailable, 0, 3500 * time.Millisecond},
+		{"slower-then-answers", 2, []int{0, 0}, codes.Unavailable, 0, 9 * time.Second},
 	}
 	var wg sync.WaitGroup
 	for ci, rc := range cases {
@@ -892,9 +911,20 @@ func retries(r *ev.Run, ca *caserver.CA, caPath, clientCert, clientKey string) {
 				expect = append(expect, certs)
 				var n atomic.Int32
 				fails := int32(rc.failFirst[k])
-				s.Set(func(context.Context, *proto.SSHCertificateSigningRequest) (*proto.SSHKey, error) {
+				wait := time.Duration(0)
+				if k == 0 {
+					wait = rc.slow
+				}
+				s.Set(func(ctx context.Context, _ *proto.SSHCertificateSigningRequest) (*proto.SSHKey, error) {
 					if n.Add(1) <= fails {
 						return nil, status.Error(rc.code, "scripted transient failure")
+					}
+					if wait > 0 {
+						select {
+						case <-time.After(wait):
+						case <-ctx.Done():
+							return nil, ctx.Err()
+						}
 					}
 					return &proto.SSHKey{Key: text}, nil
 				})
@@ -905,7 +935,7 @@ func retries(r *ev.Run, ca *caserver.CA, caPath, clientCert, clientKey string) {
 			r.Eval(1)
 			var certs []ssh.PublicKey
 			var serr error
-			if r.Guard(c, "Signer with retries", rec, func() {
+			if guardSign(r, c, "Signer with retries", rec, 4*time.Minute, false, func() {
 				signer, err := crypki.NewSigner(crypki.SignerConfig{TLSClientKeyFile: clientKey, TLSClientCertFile: clientCert, TLSCACertFiles: []string{caPath}, CrypkiEndpoints: ips, CrypkiPort: uint(port), Retries: rc.retries, PerTryTimeout: 20 * time.Second})
 				if err != nil {
 					serr = err
@@ -1127,4 +1157,33 @@ func tailOf(s string) string {
 		return "…" + s[len(s)-3000:]
 	}
 	return s
+}
+
+// signHangs counts signing calls that did not return.
+var signHangs atomic.Int32
+
+// stopRun ends the run after a signing call that never returned: its goroutine stays behind and keeps a processor
+// busy, which is no state to judge timing in, and one such call decides the verdict.
+type stopRun struct{}
+
+// guardSign is Guard with a bound: every signing call below carries a context with the given deadline, so a call that
+// has not returned well after that deadline never will (bounded progress: deadline plus 30 s of slack).
+func guardSign(r *ev.Run, c *ev.Case, what string, rec any, ctxDeadline time.Duration, mainGoroutine bool, f func()) bool {
+	if signHangs.Load() > 0 {
+		r.Count("signing cases skipped after a call that never returned", 1)
+		return true
+	}
+	slack := 30 * time.Second
+	if os.Getenv("VERIF_OP_TIMEOUT_S") != "" {
+		slack = ev.OpTimeout()
+	}
+	panicked, hung := r.GuardWithin(c, what, rec, ctxDeadline+slack, f)
+	if hung {
+		signHangs.Add(1)
+		r.Violation(c, "sign-never-returns:"+what, fmt.Sprintf("the call had not returned %s after it was made, its context's deadline being %s; goroutines inside the repository:\n%s", ctxDeadline+slack, ctxDeadline, ev.RepoStacks(3000)), rec)
+		if mainGoroutine {
+			panic(stopRun{})
+		}
+	}
+	return panicked || hung
 }
